@@ -881,11 +881,11 @@ func (env *Env) call(n *ast.CallExpr) (Val, error) {
 			return Val{T: a.T, L: []string{sIte(sLe(a.one(), b.one()), a.one(), b.one())}}, nil
 		}
 		return Val{T: a.T, L: []string{sIte(sLe(a.one(), b.one()), b.one(), a.one())}}, nil
-	case "cell":
-		// cell(x): the current content of the address-taken local variable x
+	case "cellof":
+		// cellof(x): the current content of the address-taken local variable x
 		id, ok := n.Args[0].(*ast.Ident)
 		if !ok {
-			return Val{}, fmt.Errorf("cell(name)")
+			return Val{}, fmt.Errorf("cellof(name)")
 		}
 		for _, b := range fx.fn.Blocks {
 			for _, in := range b.Instrs {
